@@ -23,7 +23,7 @@ ITEM_KW = {'fn', 'enum', 'struct', 'trait', 'const', 'static', 'type', 'impl', '
 MODIFIERS = {'pub', 'const', 'async', 'unsafe', 'extern', 'default'}
 
 # attribute macros that cannot exist in a single-file build: dropped (rule 'drop-attr')
-DROP_ATTR_RE = re.compile(r'^#\s*\[\s*(error|from|source|backtrace|must_use|doc|inline|cfg_attr|deprecated|allow|expect|warn)\b')
+DROP_ATTR_RE = re.compile(r'^#\s*\[\s*(error|from|source|backtrace|must_use|doc|inline|cfg_attr|deprecated|allow|expect|warn|eq|partial_eq|debug|non_exhaustive)\b')
 DROP_DERIVES = {'Error', 'Display', 'From', 'Into', 'EnumSetType', 'Enum', 'EnumIter', 'EnumString', 'IntoStaticStr'}
 
 
@@ -333,6 +333,8 @@ class FnSplicer:
             self._let_chain_last(body_open, body_close)
         if 'bool-or-assign' in (spec.get('rewrites') or []):
             self._bool_or_assign(body_open, body_close)
+        if 'let-chain-first' in (spec.get('rewrites') or []):
+            self._let_chain_first(body_open, body_close)
         # an annotation set can name statements it relies on; if one is missing the set does not apply (lost anchor)
         for anchor in (spec.get('needs') or []):
             want = anchor.split()
@@ -343,6 +345,8 @@ class FnSplicer:
         for pname in (spec.get('entry_snapshots') or []):
             self.segs.insert(toks[body_open].end, '\n        let ghost verif_entry_%s = %s;' % (pname, pname), tag + '/ghost-entry-snapshot', order=0)
             self.counts['ghost-entry-snapshot'] = self.counts.get('ghost-entry-snapshot', 0) + 1
+        if 'or-arm-split' in (spec.get('rewrites') or []):
+            self._or_arm_split(body_open, body_close)
         if 'or-pattern-guard-split' in (spec.get('rewrites') or []):
             self._or_pattern_guard_split(body_open, body_close)
         if 'iter-rposition-to-helper' in (spec.get('rewrites') or []):
@@ -466,7 +470,7 @@ class FnSplicer:
         # Rule 'tokens-to-helper': an exact token sequence (a std call chain Verus cannot take) is replaced by a call of a
         # helper function whose body is that very expression behind an assumed contract: [(tokens, replacement)]
         for n_tr, (pattern, replacement) in enumerate(spec.get('token_rewrites') or []):
-            want = pattern.split()
+            want = [t.text for t in lex(pattern) if t.kind not in ('comment', 'doc')]
             hits = []
             i = body_open + 1
             while i < body_close - len(want) + 1:
@@ -529,10 +533,78 @@ class FnSplicer:
         cspecs = spec.get('closures') or {}
         for k, c in enumerate(closures):
             cspec = cspecs.get(k, cspecs.get(str(k)))
+            if cspec is None and (spec.get('ensures') or spec.get('requires')) and 'external_body' not in str(spec.get('attrs')):
+                # a closure nobody wrote a contract for makes every proof about its result fail for no semantic reason:
+                # undecided, never an alarm
+                raise ExtractError('unsupported construct: closure #%d of %s has no contract (the function has %d closures, %d with contracts)' % (k, tag, len(closures), len(cspecs)))
             self._closure(k, c, cspec, tag)
         for k in cspecs:
             if int(k) >= len(closures):
                 raise ExtractError('lost anchor: closure #%s of %s (found %d closures)' % (k, tag, len(closures)))
+
+    def _or_arm_split(self, body_open, body_close):
+        """Rule 'or-arm-split': a match arm `P1 | P2 => { BODY }` whose alternatives are struct patterns with bindings
+        becomes `P1 => { BODY } P2 => { BODY }` (Verus does not support an or-pattern that binds by mutable
+        reference).  Same arms in the same order; BODY is duplicated.  Only arms with a block body and no guard."""
+        toks = self.src.toks
+        text = self.src.text
+        i = body_open + 1
+        n = 0
+        while i < body_close:
+            if toks[i].text == '=>' :
+                # pattern start: after the previous arm (`,` or the `}` of a block body) or the `{` of the match
+                j = i - 1
+                while j > body_open:
+                    tj = toks[j]
+                    if tj.kind == 'punct' and tj.text in CLOSE:
+                        # find the matching opener
+                        depth = 0
+                        k = j
+                        while True:
+                            if toks[k].text in CLOSE:
+                                depth += 1
+                            elif toks[k].text in OPEN:
+                                depth -= 1
+                                if depth == 0:
+                                    break
+                            k -= 1
+                        if tj.text == '}' and toks[k - 1].text == '=>':
+                            break          # the block body of the previous arm
+                        j = k - 1
+                        continue
+                    if tj.kind == 'punct' and (tj.text in OPEN or tj.text == ','):
+                        break
+                    j -= 1
+                ps = j + 1
+                # top-level `|` separators between struct patterns `Path { .. } | Path { .. }`
+                bars = []
+                k = ps
+                has_if = False
+                while k < i:
+                    if toks[k].text in OPEN:
+                        k = match_close(toks, k)
+                    elif toks[k].text == '|':
+                        bars.append(k)
+                    elif toks[k].kind == 'ident' and toks[k].text == 'if':
+                        has_if = True
+                    k += 1
+                if bars and not has_if and toks[bars[0] - 1].text == '}' and toks[i + 1].text == '{':
+                    bclose = match_close(toks, i + 1)
+                    body = text[toks[i].start:toks[bclose].end]
+                    alts = []
+                    prev = ps
+                    for b in bars + [i]:
+                        alts.append(text[toks[prev].start:toks[b - 1].end])
+                        prev = b + 1
+                    new = ('\n            '.join('%s %s' % (a, body) for a in alts))
+                    # the body may contain further spliced text (none supported here): rewrite the whole arm
+                    self.segs.rewrite(toks[ps].start, toks[bclose].end, new, 'or-arm-split')
+                    self.counts['or-arm-split'] = self.counts.get('or-arm-split', 0) + 1
+                    n += 1
+                    i = bclose
+            i += 1
+        if n == 0:
+            raise ExtractError('lost anchor: no `P1 {..} | P2 {..} => { .. }` arm in %s' % self.name_path)
 
     def _or_pattern_guard_split(self, body_open, body_close):
         """Rule 'or-pattern-guard-split': a match arm `HEAD(L1 | L2) if G => BODY` (HEAD a path, L1/L2 literals)
@@ -797,6 +869,45 @@ class FnSplicer:
             self.segs.insert(toks[arrow].end, ' if ' + g_text + ' {', 'match-guard-to-if/if', order=0)
             self.segs.insert(toks[a_end - 1].end, ' } else { ' + b_text + ' }', 'match-guard-to-if/else-copy', order=9)
             self.counts['match-guard-to-if'] = self.counts.get('match-guard-to-if', 0) + 1
+
+    def _let_chain_first(self, body_open, body_close):
+        """Rule 'let-chain-first': `if let P = E && A { B }` (the `let` is the FIRST conjunct, one more conjunct, no
+        `else`) -> `if let P = E { if A { B } }`.  Same evaluation order, same scopes."""
+        toks = self.src.toks
+        i = body_open + 1
+        n = 0
+        while i < body_close:
+            if toks[i].kind == 'ident' and toks[i].text == 'if' and toks[i + 1].kind == 'ident' and toks[i + 1].text == 'let':
+                j = i + 2
+                while not (toks[j].kind == 'punct' and toks[j].text == '='):
+                    if toks[j].text in OPEN:
+                        j = match_close(toks, j)
+                    j += 1
+                k = j + 1
+                amp = None
+                while not (toks[k].kind == 'punct' and toks[k].text == '{'):
+                    if toks[k].text in ('(', '['):
+                        k = match_close(toks, k)
+                    elif toks[k].text == '&' and toks[k + 1].text == '&' and toks[k + 1].start == toks[k].end:
+                        if amp is not None:
+                            raise ExtractError('let-chain-first: more than two conjuncts')
+                        amp = k
+                        k += 1
+                    k += 1
+                if amp is not None:
+                    if toks[amp + 2].kind == 'ident' and toks[amp + 2].text == 'let':
+                        raise ExtractError('let-chain-first: second conjunct is a let')
+                    bclose = match_close(toks, k)
+                    if toks[bclose + 1].kind == 'ident' and toks[bclose + 1].text == 'else':
+                        raise ExtractError('let-chain-first: the if has an else branch')
+                    self.segs.rewrite(toks[amp].start, toks[amp + 1].end, '{ if', 'let-chain-first')
+                    self.segs.insert(toks[bclose].end, ' }', 'let-chain-first/close')
+                    self.counts['let-chain-first'] = self.counts.get('let-chain-first', 0) + 1
+                    n += 1
+                i = k
+            i += 1
+        if n == 0:
+            raise ExtractError('lost anchor: no `if let P = E && A {` in %s' % self.name_path)
 
     def _let_chain_last(self, body_open, body_close):
         """Rule 'let-chain-last': `if A && let P = E { B }` (the `let` is the LAST conjunct and the
